@@ -62,7 +62,11 @@ TYPE_SHAPES = {
     "f(a,*rest)|a:M1,rest:M2": {"a": DF1, "rest": DF2},
     "f(a,**kw)|kw:M1": {"kw": DF1},
     "async f(a)|a:M1,return:M2": {"a": DF1, "return": DF2},
+    # postponed evaluation of annotations (`from __future__ import annotations`, forward references): the annotations are STRINGS that
+    # typing.get_type_hints resolves in the function's globals - they designate the same models
+    "f(a,b)|a:'M1',return:'M2'": {"a": "DF1", "return": "DF2"},
 }
+STRING_NS = {"DF1": DF1, "DF2": DF2}
 
 
 class NonPandasFrame:
@@ -100,6 +104,8 @@ class DataVal:
 
 def models_of(annotation):
     """the models an annotation designates, in order, and whether None is admitted"""
+    if isinstance(annotation, str):
+        annotation = STRING_NS[annotation]
     if annotation is DF1:
         return ["M1"], False
     if annotation is DF2:
@@ -183,7 +189,7 @@ class CheckTypes(Contract):
         sig_src, _ = shape.split("|")
         ann = TYPE_SHAPES[shape]
         name, params, names, is_async = parse_shape(sig_src)
-        fn = PF.make_fn(name, params, is_async=is_async, annotations=ann)
+        fn = PF.make_fn(name, params, is_async=is_async, annotations=ann, ns={"DF1": DF1, "DF2": DF2})
         schemas = {n: TypesSchema(f"schema_{n}") for n in MODELS}
         install_models(I, schemas)
         ret_models, _ = models_of(ann.get("return"))
